@@ -1,9 +1,60 @@
 import JominiModel.Driver.Util
+import JominiModel.Model.BinTape
+/-
+ops of property C03 (and the binary half of C06):
+  btape  <hex>             optimised parser        -> tape in show.rs `bin_tape` format | err:eof | err:syntax
+  btapeU <hex>             reference parser        -> same
+  btpair <hex>             both: `<opt> | <ref>`
+  btexp  <hex> <expected>  optimised parser, the harness also compares with <expected>
+  btreuse <hex-big> <hex>  parse <hex> into a tape previously filled by <hex-big>
+  wfbin  <hex>             parse, then the C06 structural checker -> wf:true | wf:false | err
+-/
 namespace Jomini.Driver.C03
-open Jomini Jomini.Driver
+open Jomini Jomini.Driver Jomini.BinTape
 
-/-- ops of property C03 (none yet). -/
+def showTok : BTok → String
+  | .array e => s!"A{e}"
+  | .object e => s!"O{e}"
+  | .mixed => "M"
+  | .equal => "Eq"
+  | .end_ i => s!"E{i}"
+  | .bool b => if b then "B:1" else "B:0"
+  | .u32 v => s!"U32:{v}"
+  | .u64 v => s!"U64:{v}"
+  | .i64 v => s!"I64:{v}"
+  | .i32 v => s!"I32:{v}"
+  | .quoted b => s!"Q:{toHex b}"
+  | .unquoted b => s!"U:{toHex b}"
+  | .f32 b => s!"F32:{toHex b}"
+  | .f64 b => s!"F64:{toHex b}"
+  | .token id => s!"T:{id}"
+  | .rgb r g b none => s!"Rgb:{r}.{g}.{b}"
+  | .rgb r g b (some a) => s!"Rgb:{r}.{g}.{b}.{a}"
+
+def showTape (t : Tape) : String :=
+  if t.isEmpty then "-" else ",".intercalate (t.map showTok)
+
+def showErr : Err → String
+  | .eof => "err:eof"
+  | .syntax => "err:syntax"
+  | .panic => "panic"
+  | .ub => "ub"
+  | .fuel => "fuel"
+
+def showRes : Except Err Tape → String
+  | .ok t => showTape t
+  | .error e => showErr e
+
 def handle : Handler
+  | ["btape", h] => (parseHex h).map fun d => showRes (parse true d)
+  | ["btapeU", h] => (parseHex h).map fun d => showRes (parse false d)
+  | ["btpair", h] => (parseHex h).map fun d => showRes (parse true d) ++ " | " ++ showRes (parse false d)
+  | ["btexp", h, _] => (parseHex h).map fun d => showRes (parse true d)
+  | ["btreuse", _, h] => (parseHex h).map fun d => showRes (parse true d)
+  | ["wfbin", h] => (parseHex h).map fun d =>
+      match parse true d with
+      | .ok t => if wfBinTape d t then "wf:true" else "wf:false"
+      | .error e => showErr e
   | _ => none
 
 end Jomini.Driver.C03
